@@ -18,6 +18,8 @@ RULE = (
     "put/invalidate/set_* touch only next_files; R6 try_open passes blocking=false, open passes true."
 )
 
+CRATES = ["veryl_cache", "veryl_path"]
+
 ST = "veryl_cache::Store"
 FE = "veryl_cache::FileEntry"
 MF = "veryl_cache::Manifest"
